@@ -262,6 +262,10 @@ def corr_decompress(ctx, rep, rng, n_cases):
         us = [rng.choice([1000, 1000, 1000, 10, 3, 0]) for _ in stages]
         if rng.random() < 0.05 and len(us) > 1:
             us = us[:-1]
+        if mixed:
+            # which of two exceptions of one call wins (the AES stage's ValueError or a later stage's closed gate) is not
+            # modelled: with an AES stage all gates stay open; the gates are exercised by the pure toy chains
+            us = [1000 for _ in stages]
         calls = [(rng.choice([-1, 0, 1, 2, 3, 5, 8, 16, 17, 33, 100]), rng.choice([0, 1, 2, 3, 7, 15, 16, 17, 40, 200]))
                  for _ in range(rng.randrange(1, 14))]
         fn = "mix_run_t" if mixed else "toy_run_t"
@@ -724,6 +728,47 @@ def contract_case(arg):
     return res
 
 
+BCJ_TAIL_WITNESSES = {   # data (hex), number of bytes delivered in the second piece
+    "x86": ("a461b5e8f22106ff", 1), "arm": ("3aeb64" * 10 + "3aeb", 2), "armt": ("e8f748fe", 3), "ppc": ("9250b7974a9b5289", 1),
+    "sparc": ("e90dc50bb3fe7e2d5589e5e9402249e0", 3),
+}
+
+
+def contract_bcj_tail(arg):
+    """run in a sandbox child: the BCJ decoder of `codec` fed its own encoder's output in two pieces, the second holding the
+    last 1..7 bytes (what a previous stage does that delivers the end of its stream in a separate call, as PpmdDecompressor
+    always does); prefix safety demands the same bytes as when fed in one piece"""
+    from harness import arch
+    _die_with_parent()
+    name = arg["codec"]
+    mkenc, mkdec = codec_pairs()[name]
+    rng = random.Random(arg["seed"])
+
+    def split_wrong(data, k):
+        n = len(data)
+        e = mkenc()
+        blob = e.compress(data) + e.flush()
+        d = mkdec(n)
+        out = d.decompress(blob[:n - k]) + d.decompress(blob[n - k:])
+        g = 0
+        while len(out) < n and g < 3:
+            out += d.decompress(b"")
+            g += 1
+        return None if out == data else out
+    fails, first = 0, None
+    cases = [(bytes.fromhex(BCJ_TAIL_WITNESSES[name][0]), BCJ_TAIL_WITNESSES[name][1])]
+    for _ in range(arg["trials"]):
+        n = rng.choice([4, 8, 15, 16, 17, 31, 32, 33, 64, 200])
+        cases.append((arch.pattern_bytes(rng, n, rng.choice(["period", "code", "random"])), rng.randrange(1, min(8, n))))
+    for data, k in cases:
+        out = split_wrong(data, k)
+        if out is not None:
+            fails += 1
+            if first is None:
+                first = {"data": data.hex(), "second_piece": k, "got": out.hex()}
+    return {"trials": len(cases), "fails": fails, "first": first}
+
+
 def check_contracts(ctx, rep, rng, tier):
     from harness.sandbox import run_sandboxed
     names = sorted(codec_pairs()) + ["aes"]
@@ -781,6 +826,24 @@ def check_contracts(ctx, rep, rng, tier):
         rep.violation("codec contract: %s round trip of %d %s bytes through the wrapper classes alone: %s" % (name, job["n"], job["texture"], what),
                       {"kind": "codec-contract", **job, "outcome": outcome},
                       match_keys={"kind": "codec-contract", "codec": name, "large": job["n"] >= 32768})
+    for name in sorted(BCJ_TAIL_WITNESSES):
+        out = run_sandboxed("harness.c01:contract_bcj_tail", {"codec": name, "seed": rng.getrandbits(32),
+                                                              "trials": 1500 if tier == "quick" else 30000}, timeout=300, mem_mb=3000)
+        t = table.setdefault(name, {"cases": 0, "chunking_independent": True, "honours_max_length": True, "faults": 0})
+        if out["status"] != "ok":
+            rep.violation("codec contract: %s decoder tail-split run: child %s" % (name, out), {"kind": "codec-contract", "codec": name,
+                          "mode": "tail-split"}, concrete=False, match_keys={"kind": "codec-contract-run", "codec": name})
+            continue
+        v = out["value"]
+        t["tail_split_trials"], t["tail_split_fails"] = v["trials"], v["fails"]
+        rep.count(("contract-tail", name, v["trials"]), nontrivial=True, n=v["trials"])
+        if v["fails"]:
+            faults.setdefault(name, []).append("tail-split")
+            rep.violation("codec contract: %s decoder is not prefix safe: fed %s in two pieces, the second holding the last %d bytes, it "
+                          "returns %s (its own encoder's output; fed in one piece it returns the input); %d of %d such cases" % (
+                              name, v["first"]["data"], v["first"]["second_piece"], v["first"]["got"], v["fails"], v["trials"]),
+                          {"kind": "codec-contract", "codec": name, "mode": "tail-split", **v["first"]},
+                          match_keys={"kind": "codec-contract", "codec": name, "mode": "tail-split"})
     ctx["codec_faults"] = faults
     rep.extra["codec_contract_cases"] = len(jobs)
 
@@ -1164,6 +1227,27 @@ def classify(ctx, spec, r):
         keys = {"kind": "aes-padding", "codec": "brotli"}
         return "brotli followed by 7zAES: the zero padding AES adds to the packed brotli stream is handed to the brotli decoder " \
                "(the gate on _unpacksizes does not trim it): %s" % desc, keys
+    bcjs = [p for p in parts if p in ("x86", "arm", "armt", "ppc", "sparc")]
+    if aes and bcjs and "lzma2" not in parts and r["stage"] == "read" and r["exc"] == "CrcError" and model is not None:
+        # diagnosis: the same members round trip when either the BCJ filter or 7zAES is left out of the chain
+        base = dict(spec, target="bytesio", block=None, limit=None)
+        without_aes = dict(base, chain="+".join(parts[:-1]), password=None, header="encoded")
+        without_bcj = dict(base, chain="+".join(p for p in parts if p not in bcjs))
+        both = run_specs([base, without_aes, without_bcj], 1)
+        if [x[1]["status"] for x in both] == ["fail", "ok", "ok"]:
+            keys = {"kind": "aes-padding", "codec": "bcj"}
+            return "BCJ filter (%s) with 7zAES: the zero padding AES adds travels through the chain into the BCJ decoder, which then " \
+                   "converts an opcode in the last bytes of the stream that the encoder left alone (same members are fine without 7zAES " \
+                   "and without the filter): %s" % (bcjs[0], desc), keys
+    if bcjs and "lzma2" not in parts and r["stage"] == "read" and r["exc"] == "CrcError" and model is not None \
+            and ctx.get("codec_faults", {}).get(bcjs[0]):
+        # diagnosis: the same session (same block size and chunk limit) is fine without the BCJ filter
+        without_bcj = dict(spec, chain="+".join(p for p in parts if p not in bcjs), target="bytesio" if spec["target"] == "multivolume" else spec["target"])
+        if run_specs([without_bcj], 1)[0][1]["status"] == "ok":
+            keys = {"kind": "bcj-tail", "filter": bcjs[0]}
+            return "BCJ filter (%s) in front of a non-LZMA codec: the codec's decoder delivers the end of its stream in a separate piece and " \
+                   "pybcj's decoder has by then flushed the beginning of the last instruction word unconverted (the codec contract " \
+                   "validation shows the same on the wrapper class alone; the same session is fine without the filter): %s" % (bcjs[0], desc), keys
     if any(p.startswith("ppmd") for p in parts) and total >= 32768 and (
             r["exc"] in ("crash", "ValueError", "timeout", "CrcError", "Bad7zFile", "NoProgress") or r["stage"] in ("content", "process", "spin")):
         if ctx.get("codec_faults", {}).get("ppmd"):
@@ -1185,6 +1269,8 @@ def check_e2e(ctx, rep, rng, tier):
         for i in range(160):
             s = gen_spec(rng, tier, i, chains, fast_only=True)
             s["chain"] = rng.choice(["lzma2", "lzma", "bzip2", "ppmd", "brotli", "x86+lzma2", "delta+lzma2", "lzma2+aes", "x86+bzip2", "deflate64"])
+            if s["chain"].endswith("aes") and not s["password"]:
+                s["password"] = "pw"
             specs.append(s)
     # the public-API scenario of the AES short-chunk refutation at the DEFAULT block size:
     # volumes of 1 MiB + 4 bytes, a little over 2 MiB of encrypted data
@@ -1199,6 +1285,14 @@ def check_e2e(ctx, rep, rng, tier):
     for nbytes in (1, 2, 3, 4, 5, 6, 7, 8):   # the header lands on a boundary of the 64-byte volumes for some of these
         specs.append({"chain": "copy", "password": None, "header": "raw", "target": "multivolume", "volume": 64, "block": None,
                       "limit": None, "api": "writestr", "members": [["h", {"n": nbytes, "texture": "text", "seed": 4}]]})
+    specs.append({"chain": "x86+copy+aes", "password": "pw", "header": "encoded", "target": "bytesio", "volume": 4096, "block": None,
+                  "limit": None, "api": "writestr",
+                  "members": [["a", {"n": 2259, "texture": "random", "seed": 247785857}], ["b", {"n": 16, "texture": "code", "seed": 3529851951}],
+                              ["c", {"n": 17, "texture": "text", "seed": 3335807435}], ["d", {"n": 15, "texture": "zeros", "seed": 3738665499}],
+                              ["e", {"n": 34, "texture": "code", "seed": 4084298911}]]})
+    # ARM filter in front of PPMd, 32 bytes whose last word is a branch instruction: everything else at its default
+    specs.append({"chain": "arm+ppmd", "password": None, "header": "encoded", "target": "bytesio", "volume": 4096, "block": None,
+                  "limit": None, "api": "writestr", "members": [["t", {"n": 32, "texture": "period", "seed": 3267632319}]]})
     for n_, seed_ in ((40000, 2), (70001, 2), (70001, 5), (200003, 6)):     # PPMd on incompressible data of more than 32 KiB
         specs.append({"chain": "ppmd", "password": None, "header": "encoded", "target": "bytesio", "volume": 4096, "block": None,
                       "limit": None, "api": "writestr", "members": [["p", {"n": n_, "texture": "random", "seed": seed_}]]})
@@ -1298,8 +1392,17 @@ def replay(d):
         out = run_sandboxed("harness.c01:batch_worker", [r["spec"]], timeout=120, mem_mb=4000)
         print(json.dumps(out, default=str)[:1500])
         return 0 if out["status"] == "ok" and out["value"][0]["status"] == "ok" else 1
+    if r.get("kind") == "codec-contract" and r.get("mode") == "tail-split":
+        mkenc, mkdec = codec_pairs()[r["codec"]]
+        data, k = bytes.fromhex(r["data"]), r["second_piece"]
+        e = mkenc()
+        blob = e.compress(data) + e.flush()
+        d = mkdec(len(data))
+        out = d.decompress(blob[:len(data) - k]) + d.decompress(blob[len(data) - k:]) + d.decompress(b"")
+        print("input", data.hex(), "decoded in two pieces", out.hex())
+        return 0 if out == data else 1
     if r.get("kind") == "codec-contract":
-        job = {k: r[k] for k in ("codec", "seed", "n", "texture")}
+        job = {k: r[k] for k in ("codec", "seed", "n", "texture", "blocks") if k in r}
         out = run_sandboxed("harness.c01:contract_case", job, timeout=120, mem_mb=4000)
         print(json.dumps(out, default=str)[:1500])
         return 0 if out["status"] == "ok" and out["value"]["prefix_ok"] and out["value"]["complete"] else 1
